@@ -30,16 +30,17 @@ CONSTANTS Cfgs,              \* bounded input domain: set of task shapes
           DevRetAfterPost,   \* RP_RET is overwritten by the post_exec commands
           DevNamedEnvLast,   \* the named environment is activated after the described exports
           DevStartupAbortsOthers,  \* the rank-0-only startup report ends the script on ranks > 0
+          DevPalsByVersionLine,  \* a PALS mpiexec is taken for Open MPI (its version line wins)
           DevGpuWholeOnly,   \* the GPU variable is exported only for whole GPUs
           DevErrDirFromOut   \* whether stderr goes into the sandbox is decided by the stdout name
 
 VARIABLES cfg, F, xrc,
           lpc, lidx, lran, lret, lcode, cwd, outto, errto,
-          pc, idx, ran, execd, ret, code, envs, envval, arrived, reported, gpuenv,
+          pc, idx, ran, execd, ret, code, envs, envval, arrived, reported, gpuenv, rid,
           printed
 
 vars == <<cfg, F, xrc, lpc, lidx, lran, lret, lcode, cwd, outto, errto,
-          pc, idx, ran, execd, ret, code, envs, envval, arrived, reported, gpuenv, printed>>
+          pc, idx, ran, execd, ret, code, envs, envval, arrived, reported, gpuenv, rid, printed>>
 
 Rk == Ranks(cfg)
 
@@ -58,10 +59,11 @@ Init ==
   /\ envval = [r \in Ranks(cfg) |-> EnvBefore(cfg)]
   /\ arrived = {} /\ reported = {}
   /\ gpuenv = [r \in Ranks(cfg) |-> [set |-> FALSE, ids |-> <<>>]]
+  /\ rid = [r \in Ranks(cfg) |-> -1]
   /\ printed = FALSE
 
 LVars == <<lpc, lidx, lran, lret, lcode, cwd, outto, errto>>
-RVars == <<pc, idx, ran, execd, ret, code, envs, envval, arrived, reported, gpuenv>>
+RVars == <<pc, idx, ran, execd, ret, code, envs, envval, arrived, reported, gpuenv, rid>>
 GVars == <<reported, gpuenv>>
 
 (* ------------------------------------------------------------------------ *)
@@ -114,7 +116,7 @@ Launch ==                                 \* the launcher starts every rank
           /\ pc' = [r \in Rk |-> "env"]
           /\ UNCHANGED <<lret, lidx>>
   /\ UNCHANGED <<cfg, F, xrc, lran, lcode, cwd, printed,
-                 idx, ran, execd, ret, code, envs, envval, arrived, reported, gpuenv>>
+                 idx, ran, execd, ret, code, envs, envval, arrived, reported, gpuenv, rid>>
 
 Collect ==                                \* RP_RET=$? of the launcher
   /\ lpc = "wait" /\ \A r \in Rk : pc[r] = "done"
@@ -134,10 +136,19 @@ RStep(r, here, next, grp) ==
   /\ pc[r] = here
   /\ pc' = [pc EXCEPT ![r] = next]
   /\ envs' = [envs EXCEPT ![r] = @ \cup grp]
-  /\ UNCHANGED <<cfg, F, xrc, idx, ran, execd, ret, code, envval, arrived, printed>> /\ UNCHANGED GVars /\ UNCHANGED LVars
+  /\ UNCHANGED <<cfg, F, xrc, idx, ran, execd, ret, code, envval, arrived, printed>> /\ UNCHANGED GVars /\ UNCHANGED rid /\ UNCHANGED LVars
 
 SetRpEnv(r) == RStep(r, "env", "rankid", {"rp"})
-RankId(r)   == RStep(r, "rankid", "startup", {"rank"})
+\* export RP_RANKS; the launcher's get_rank_cmd lines: RP_RANK from the variables
+\* of the detected flavor
+Detected == IF DevPalsByVersionLine /\ cfg.fl = "pals" THEN "ompi" ELSE cfg.fl
+RankId(r) ==
+  /\ pc[r] = "rankid"
+  /\ pc' = [pc EXCEPT ![r] = "startup"]
+  /\ envs' = [envs EXCEPT ![r] = @ \cup {"rank"}]
+  /\ rid' = [rid EXCEPT ![r] = RankIdOf(cfg, r, Detected)]
+  /\ UNCHANGED <<cfg, F, xrc, idx, ran, execd, ret, code, envval, arrived, printed>>
+  /\ UNCHANGED GVars /\ UNCHANGED LVars
 
 \* td.startup_timeout: test "$RP_RANK" == "0" && $RP_CTRL ... task_startup_done
 \* rank 0 reports, the line is a no-op on every other rank
@@ -149,7 +160,7 @@ Startup(r) ==
      ELSE /\ pc' = [pc EXCEPT ![r] = "nenv"]
           /\ reported' = IF cfg.sto /\ r = 0 THEN reported \cup {r} ELSE reported
           /\ UNCHANGED code
-  /\ UNCHANGED <<cfg, F, xrc, idx, ran, execd, ret, envs, envval, arrived, gpuenv, printed>>
+  /\ UNCHANGED <<cfg, F, xrc, idx, ran, execd, ret, envs, envval, arrived, gpuenv, rid, printed>>
   /\ UNCHANGED LVars
 
 \* _get_task_env, first block: ". <activation script of the named environment>"
@@ -160,7 +171,7 @@ EnvStep(r, here, next, grp, val) ==
   /\ pc' = [pc EXCEPT ![r] = next]
   /\ envs' = [envs EXCEPT ![r] = @ \cup grp]
   /\ envval' = [envval EXCEPT ![r] = val]
-  /\ UNCHANGED <<cfg, F, xrc, idx, ran, execd, ret, code, arrived, printed>> /\ UNCHANGED GVars /\ UNCHANGED LVars
+  /\ UNCHANGED <<cfg, F, xrc, idx, ran, execd, ret, code, arrived, printed>> /\ UNCHANGED GVars /\ UNCHANGED rid /\ UNCHANGED LVars
 
 NamedEnv(r) ==
   EnvStep(r, "nenv", "taskenv", IF cfg.nenv THEN {"named"} ELSE {},
@@ -171,7 +182,7 @@ TaskEnv(r) ==
   THEN \* bash cannot parse the export line: nothing after it runs
        /\ pc[r] = "taskenv"
        /\ pc' = [pc EXCEPT ![r] = "done"] /\ code' = [code EXCEPT ![r] = 2]
-       /\ UNCHANGED <<cfg, F, xrc, idx, ran, execd, ret, envs, envval, arrived, printed>> /\ UNCHANGED GVars /\ UNCHANGED LVars
+       /\ UNCHANGED <<cfg, F, xrc, idx, ran, execd, ret, envs, envval, arrived, printed>> /\ UNCHANGED GVars /\ UNCHANGED rid /\ UNCHANGED LVars
   ELSE EnvStep(r, "taskenv", "pre", {"task"},
                IF DevNamedEnvLast THEN Activate(cfg, envval[r]) ELSE Export(envval[r]))
 
@@ -198,7 +209,7 @@ RCmd(r, sig, es, here, next) ==
                        ELSE /\ code' = [code EXCEPT ![r] = FailCode]
                             /\ pc' = [pc EXCEPT ![r] = "done"]
                             /\ UNCHANGED <<idx, ret>>
-  /\ UNCHANGED <<cfg, xrc, execd, envs, envval, arrived, printed>> /\ UNCHANGED GVars /\ UNCHANGED LVars
+  /\ UNCHANGED <<cfg, xrc, execd, envs, envval, arrived, printed>> /\ UNCHANGED GVars /\ UNCHANGED rid /\ UNCHANGED LVars
 
 PreExec(r)  == RCmd(r, "pre_exec",  AllPre(cfg),  "pre",  "gpu")
 
@@ -208,19 +219,19 @@ GpuExport(r) ==
   /\ pc' = [pc EXCEPT ![r] = IF cfg.sync THEN "sync" ELSE "exec"]
   /\ gpuenv' = [gpuenv EXCEPT ![r] = IF DevGpuWholeOnly /\ cfg.gq < 4
                                       THEN [set |-> FALSE, ids |-> <<>>] ELSE GpuEnv(cfg, r)]
-  /\ UNCHANGED <<cfg, F, xrc, idx, ran, execd, ret, code, envs, envval, arrived, reported, printed>>
+  /\ UNCHANGED <<cfg, F, xrc, idx, ran, execd, ret, code, envs, envval, arrived, reported, rid, printed>>
   /\ UNCHANGED LVars
 PostExec(r) == RCmd(r, "post_exec", cfg.post, "post", "exit")
 
 SyncArrive(r) ==                          \* echo $RP_RANK >> pre_exec.sig
   /\ pc[r] = "sync" /\ r \notin arrived
   /\ arrived' = arrived \cup {r}
-  /\ UNCHANGED <<cfg, F, xrc, pc, idx, ran, execd, ret, code, envs, envval, printed>> /\ UNCHANGED GVars /\ UNCHANGED LVars
+  /\ UNCHANGED <<cfg, F, xrc, pc, idx, ran, execd, ret, code, envs, envval, printed>> /\ UNCHANGED GVars /\ UNCHANGED rid /\ UNCHANGED LVars
 
 SyncPass(r) ==                            \* wc -l >= $RP_RANKS
   /\ pc[r] = "sync" /\ arrived = Rk
   /\ pc' = [pc EXCEPT ![r] = "exec"]
-  /\ UNCHANGED <<cfg, F, xrc, idx, ran, execd, ret, code, envs, envval, arrived, printed>> /\ UNCHANGED GVars /\ UNCHANGED LVars
+  /\ UNCHANGED <<cfg, F, xrc, idx, ran, execd, ret, code, envs, envval, arrived, printed>> /\ UNCHANGED GVars /\ UNCHANGED rid /\ UNCHANGED LVars
 
 Exec(r) ==                                \* executable & ; wait ; RP_RET=$?
   /\ pc[r] = "exec"
@@ -230,13 +241,13 @@ Exec(r) ==                                \* executable & ; wait ; RP_RET=$?
   /\ execd' = [execd EXCEPT ![r] = TRUE]
   /\ ran' = [ran EXCEPT ![r] = Append(@, ExecMark)]
   /\ pc' = [pc EXCEPT ![r] = "post"] /\ idx' = [idx EXCEPT ![r] = 1]
-  /\ UNCHANGED <<cfg, F, code, envs, envval, arrived, printed>> /\ UNCHANGED GVars /\ UNCHANGED LVars
+  /\ UNCHANGED <<cfg, F, code, envs, envval, arrived, printed>> /\ UNCHANGED GVars /\ UNCHANGED rid /\ UNCHANGED LVars
 
 Exit(r) ==                                \* exit $RP_RET
   /\ pc[r] = "exit"
   /\ code' = [code EXCEPT ![r] = ret[r]]
   /\ pc' = [pc EXCEPT ![r] = "done"]
-  /\ UNCHANGED <<cfg, F, xrc, idx, ran, execd, ret, envs, envval, arrived, printed>> /\ UNCHANGED GVars /\ UNCHANGED LVars
+  /\ UNCHANGED <<cfg, F, xrc, idx, ran, execd, ret, envs, envval, arrived, printed>> /\ UNCHANGED GVars /\ UNCHANGED rid /\ UNCHANGED LVars
 
 XrcSeq == [i \in 1 .. cfg.ranks |-> xrc[i - 1]]
 
@@ -263,6 +274,7 @@ Sigs == {"pre_launch", "pre_exec", "exec", "post_exec", "post_launch"}
 
 TypeOK ==
   /\ cfg.ranks \in 1 .. 4 /\ cfg.lm \in {"fork", "mpi"} /\ (cfg.lm = "fork" => cfg.ranks = 1)
+  /\ (cfg.lm = "mpi" => cfg.fl \in MpiFlavors) /\ (cfg.lm = "fork" => cfg.fl = "none")
   /\ \A i \in 1 .. Len(cfg.argv) : cfg.argv[i] \in Classes
   /\ \A i \in 1 .. Len(cfg.env) : cfg.env[i] \in Classes
   /\ Len(cfg.envk) = Len(cfg.env) /\ \A i \in 1 .. Len(cfg.envk) : cfg.envk[i] \in KeyKinds
@@ -336,6 +348,9 @@ InvLaunch ==
 InvStartup ==
   /\ reported \subseteq (IF cfg.sto THEN {0} ELSE {})
   /\ (cfg.sto /\ execd[0]) => 0 \in reported
+
+\* every rank knows its rank id, whatever the launcher's flavor
+InvRankId == \A r \in Rk : execd[r] => rid[r] = r /\ rid[r] = RankIdOf(cfg, r, cfg.fl)
 
 \* the executable sees exactly the GPUs of its rank's slot
 InvGpuEnv == \A r \in Rk : execd[r] => gpuenv[r] = GpuEnv(cfg, r)
